@@ -295,6 +295,56 @@ def h_struct_obj(e, st, o, name, args, kwargs):
         raise Unsupported(f"struct.Struct.{name}")
 
 
+def _deep_clone(e, st, v, memo):
+    """copy.deepcopy of a heap value: containers are cloned, immutable values shared"""
+    if isinstance(v, Ref):
+        if v.addr in memo:
+            return st, memo[v.addr]
+        o = st.obj(v)
+        if o.kind not in ("list", "dict", "set", "deque"):
+            raise Unsupported("deepcopy of an object")
+        st, nr = st.alloc(Obj(o.cls, o.kind, None, [], dict(o.extra) if o.extra else None))
+        memo[v.addr] = nr
+        items = []
+        for it in o.items:
+            if o.kind == "dict":
+                st, val = _deep_clone(e, st, it[2], memo)
+                items.append([it[0], it[1], val])
+            else:
+                st, val = _deep_clone(e, st, it, memo)
+                items.append(val)
+        no = st.obj(nr).copy()
+        no.items = items
+        return st.replace_obj(nr, no), nr
+    if isinstance(v, TupleV):
+        out = []
+        for it in v.items:
+            st, x = _deep_clone(e, st, it, memo)
+            out.append(x)
+        return st, TupleV(out)
+    if isinstance(v, Opt):
+        st, x = _deep_clone(e, st, v.val, memo)
+        return st, Opt(v.isnone, x)
+    return st, v
+
+
+def x_deepcopy(e, st, args, kwargs):
+    yield _deep_clone(e, st, args[0], {})
+
+
+def x_copy(e, st, args, kwargs):
+    v = args[0]
+    if isinstance(v, Ref):
+        o = st.obj(v)
+        if o.kind not in ("list", "dict", "set"):
+            raise Unsupported("copy of an object")
+        no = o.copy()
+        no.items = [list(it) if o.kind == "dict" else it for it in o.items]
+        yield st.alloc(no)
+    else:
+        yield st, v
+
+
 def x_getlogger(e, st, args, kwargs):
     yield st, Opaque("logger")
 
@@ -325,6 +375,7 @@ def install_default_models(e):
         "dateutil.parser.parse": x_dateutil_parse, "dateutil.parser.parser.parse": x_dateutil_parse,
         "random.uniform": x_uniform, "random.randint": x_randint, "time.time": x_time, "time.sleep": x_sleep,
         "flexstack.utils.time_service:TimeService.time": x_time,
+        "copy.deepcopy": x_deepcopy, "copy.copy": x_copy,
         "struct.unpack": x_struct_unpack, "struct.calcsize": x_struct_calcsize, "struct.Struct": x_struct_struct,
     })
 
@@ -369,6 +420,41 @@ def skey(e, st, v):
 # ---------------------------------------------------------------------------------------------- symbolic-key maps
 def _map_entries(st, o):
     return st.ghost.get("map:" + str(o.ident), ())
+
+
+def flatten_terms(e, v):
+    """the z3 terms a (heap-free) value consists of, in a fixed order - used to make uninterpreted functions of values"""
+    if is_term(v):
+        return [v]
+    if isinstance(v, Opt):
+        # canonical: the payload of a None does not count (equal values must flatten to equal terms)
+        out = [v.isnone]
+        for t in flatten_terms(e, v.val):
+            s = t.sort()
+            zero = z3.BoolVal(False) if s == z3.BoolSort() else (z3.IntVal(0) if s == z3.IntSort() else
+                                                                  (z3.RealVal(0) if s == z3.RealSort() else
+                                                                   (z3.BitVecVal(0, s.size()) if z3.is_bv_sort(s) else None)))
+            out.append(t if zero is None else z3.If(v.isnone, zero, t))
+        return out
+    if isinstance(v, NoneV):
+        return []
+    if isinstance(v, Rec):
+        out = []
+        for k in sorted(v.f):
+            out += flatten_terms(e, v.f[k])
+        return out
+    if isinstance(v, TupleV):
+        out = []
+        for x in v.items:
+            out += flatten_terms(e, x)
+        return out
+    if isinstance(v, EnumV):
+        return flatten_terms(e, v.val) if not isinstance(v.val, (int, str)) else [e.intval(v.val) if isinstance(v.val, int) else e.str_id(v.val)]
+    if isinstance(v, StrV):
+        return [e.str_id(v.s)]
+    if isinstance(v, Opaque) and v.ident is not None:
+        return [v.ident]
+    raise Unsupported(f"value of kind {type(v).__name__} as a symbolic map key")
 
 
 def _map_epoch(st, o):
